@@ -408,7 +408,10 @@ class FrameParser(object):
                 body = body[p:]
             else:
                 d = zlib.decompressobj()
-                raw = d.decompress(body[p:])
+                try:
+                    raw = d.decompress(body[p:])
+                except zlib.error as e:
+                    raise WireError('bad zlib stream in frame: %s' % e)
                 if not d.eof or d.unused_data:
                     raise WireError('bad zlib stream in frame')
                 if len(raw) != dl:
